@@ -822,3 +822,145 @@ def mon_removed_key_extraction(rr):
     if files or links:
         out.append(Failure("extraction_created_file", len(rr.impl) - 1, "an extraction by a removed key created a file", sig=dict(sig0, op="dump")))
     return out
+
+
+# ---------------------------------------------------------------------------------------------
+# the algebraic laws of Lemmas/SpecLaws.lean, run against the implementation: twin caches c0 / c1
+# ---------------------------------------------------------------------------------------------
+
+def _ins(fl, c, key, data, t):
+    return f"index_insert {fl} {c} {hx(key)} sri={sri_tok('sha256', data)} time={t} size={len(data)} meta=- raw=-"
+
+
+def _wr(n, fl, c, key, data, t):
+    w = f"W{n}"
+    return [f"wopen {fl} {c} {w} {hx(key)} " + opts_tokens("sha256", None, None, t, NOMETA, None),
+            f"wwrite {w} {hx(data)}", f"wcommit {w}"]
+
+
+def gen_law_programs(kinds=("shadow", "reads", "commute", "idempotent")):
+    """The laws proved in `Lemmas/SpecLaws.lean` (Props/C05x, C09x, C10x, C15x, C16x) as metamorphic programs: the same
+    history is run in two caches of ONE program, differing only in what the law says is unobservable (a shadowed operation,
+    the reads and listings, the order of two operations on different keys, a repeated removal, a repeated by-address
+    write); every explicit time is fixed so that the answers are comparable text.  The model runs the program too (the
+    usual correspondence); `mon_laws` compares the two halves of the IMPLEMENTATION's answers with each other."""
+    progs = []
+    K, K2, K3 = b"law-key", b"law-other", b"law-third"
+    d1, d2, d3, d4 = b"first bytes", b"second, longer bytes", b"third", b"by address only"
+    for fl in "sa":
+        # (1) shadowing: op1 ; op2 on one key  ~  op2 alone, for every later history
+        for name, op1, op2 in (("ins-ins", lambda c: [_ins(fl, c, K, d1, 5)], lambda c: [_ins(fl, c, K, d2, 7)]),
+                               ("ins-del", lambda c: [_ins(fl, c, K, d1, 5)], lambda c: [f"index_delete {fl} {c} {hx(K)}"]),
+                               ("ins-remove", lambda c: [_ins(fl, c, K, d1, 5)], lambda c: [f"remove {fl} {c} {hx(K)}"]),
+                               ("del-ins", lambda c: [f"index_delete {fl} {c} {hx(K)}"], lambda c: [_ins(fl, c, K, d2, 7)]),
+                               ("find-ins", lambda c: [f"index_find {fl} {c} {hx(K)}"], lambda c: [_ins(fl, c, K, d2, 7)])):
+            ops, pairs = [], []
+            ops += op1("c0")
+            a = len(ops); ops += op2("c0")
+            b = len(ops); ops += op2("c1")
+            pairs.append((a, b))
+            n = 0
+            def later(c):
+                nonlocal n
+                n += 1
+                return ([f"metadata {fl} {c} {hx(K)}", f"index_find {fl} {c} {hx(K)}", f"list {c}", f"read {fl} {c} {hx(K)}"] +
+                        _wr(n, fl, c, K2, d3, 11) +
+                        [f"metadata {fl} {c} {hx(K2)}", f"read {fl} {c} {hx(K2)}", f"list {c}", f"remove {fl} {c} {hx(K)}",
+                         f"metadata {fl} {c} {hx(K)}", _ins(fl, c, K, d1, 13), f"metadata {fl} {c} {hx(K)}", f"list {c}"])
+            a = len(ops); l0 = later("c0"); ops += l0
+            b = len(ops); ops += later("c1")
+            pairs += [(a + i, b + i) for i in range(len(l0))]
+            progs.append(Program(f"law-shadow-{name}-{fl}", ops, tags={"laws": pairs, "law": "shadow", "both_binaries": True,
+                                                                       "variety": ("laws", "shadow", name, fl)}))
+        # (2) reads and listings are invisible
+        n = 0
+        def base(c, reads):
+            nonlocal n
+            out, idx = [], []
+            def rd(*xs):
+                if reads:
+                    out.extend(xs)
+            def op(*xs):
+                for x in xs:
+                    idx.append(len(out)); out.append(x)
+            n += 1; op(*_wr(n, fl, c, K, d1, 3)); rd(f"read {fl} {c} {hx(K)}", f"list {c}")
+            n += 1; op(*_wr(n, fl, c, K2, d2, 4)); rd(f"metadata {fl} {c} {hx(K2)}", f"read_hash {fl} {c} {sri_tok('sha256', d1)}")
+            op(f"remove {fl} {c} {hx(K)}"); rd(f"read {fl} {c} {hx(K)}", f"exists {fl} {c} {sri_tok('sha256', d1)}", f"list {c}")
+            op(_ins(fl, c, K3, d1, 6)); rd(f"index_find {fl} {c} {hx(K3)}", f"read {fl} {c} {hx(K3)}")
+            n += 1; op(*_wr(n, fl, c, K, d3, 9)); rd(f"list {c}", f"metadata {fl} {c} {hx(b'never written')}")
+            op(f"write_hash {fl} {c} sha256 {hx(d4)}"); rd(f"read_hash {fl} {c} {sri_tok('sha256', d4)}")
+            op(f"remove_hash {fl} {c} {sri_tok('sha256', d2)}"); rd(f"read {fl} {c} {hx(K2)}", f"exists {fl} {c} {sri_tok('sha256', d2)}")
+            op(f"remove_fully {fl} {c} {hx(K3)}"); rd(f"list {c}", f"metadata {fl} {c} {hx(K3)}", f"read {fl} {c} {hx(K3)}", f"index_find {fl} {c} {hx(K3)}")
+            # final observations (compared as well)
+            op(f"list {c}", f"metadata {fl} {c} {hx(K)}", f"metadata {fl} {c} {hx(K2)}", f"metadata {fl} {c} {hx(K3)}",
+               f"read {fl} {c} {hx(K)}", f"read {fl} {c} {hx(K2)}", f"read_hash {fl} {c} {sri_tok('sha256', d4)}",
+               f"exists {fl} {c} {sri_tok('sha256', d1)}")
+            return out, idx
+        o0, i0 = base("c0", True)
+        o1, i1 = base("c1", False)
+        o0.append("dump c0"); o1.append("dump c1")
+        ops = o0 + o1
+        pairs = [(x, len(o0) + y) for x, y in zip(i0, i1)]
+        progs.append(Program(f"law-reads-invisible-{fl}", ops, tags={"laws": pairs, "law": "reads", "both_binaries": True,
+                                                                     "lawdump": (len(o0) - 1, len(ops) - 1),
+                                                                     "variety": ("laws", "reads", fl)}))
+        # (3) operations on different keys commute
+        for name, opa, opb in (("ins-remove", lambda c: _ins(fl, c, K, d2, 7), lambda c: f"remove {fl} {c} {hx(K2)}"),
+                               ("remove-remove", lambda c: f"remove {fl} {c} {hx(K)}", lambda c: f"remove {fl} {c} {hx(K2)}"),
+                               ("ins-ins", lambda c: _ins(fl, c, K, d2, 7), lambda c: _ins(fl, c, K3, d3, 8)),
+                               ("find-remove", lambda c: f"index_find {fl} {c} {hx(K)}", lambda c: f"index_delete {fl} {c} {hx(K)[:-2]}6b")):
+            ops, pairs = [], []
+            for c in ("c0", "c1"):
+                ops += [_ins(fl, c, K, d1, 1), _ins(fl, c, K2, d1, 2)]
+            a0 = len(ops); ops.append(opa("c0")); b0 = len(ops); ops.append(opb("c0"))
+            b1 = len(ops); ops.append(opb("c1")); a1 = len(ops); ops.append(opa("c1"))
+            pairs += [(a0, a1), (b0, b1)]
+            for q in (f"list C", f"metadata {fl} C {hx(K)}", f"metadata {fl} C {hx(K2)}", f"metadata {fl} C {hx(K3)}"):
+                x = len(ops); ops.append(q.replace(" C", " c0")); y = len(ops); ops.append(q.replace(" C", " c1"))
+                pairs.append((x, y))
+            progs.append(Program(f"law-commute-{name}-{fl}", ops, tags={"laws": pairs, "law": "commute", "both_binaries": fl == "s",
+                                                                        "variety": ("laws", "commute", name, fl)}))
+        # (4) repeated removals / repeated by-address writes change nothing more
+        ops = _wr(1, fl, "c0", K, d1, 3) + _wr(2, fl, "c0", K2, d2, 4) + [f"write_hash {fl} c0 sha256 {hx(d4)}"]
+        ops += [f"remove_fully {fl} c0 {hx(K)}"]; x = len(ops); ops += ["dump c0", f"remove_fully {fl} c0 {hx(K)}"]; y = len(ops); ops += ["dump c0"]
+        same = [(x, y)]
+        ops += [f"write_hash {fl} c0 sha256 {hx(d4)}"]; z = len(ops); ops += ["dump c0"]; same.append((y, z))
+        ops += [f"remove {fl} c0 {hx(K2)}", f"metadata {fl} c0 {hx(K2)}", f"remove {fl} c0 {hx(K2)}"]; m1 = len(ops) - 2
+        ops += [f"metadata {fl} c0 {hx(K2)}"]; m2 = len(ops) - 1; same.append((m1, m2))
+        ops += [f"clear {fl} c0"]; u = len(ops); ops += ["dump c0", f"clear {fl} c0"]; v = len(ops); ops += ["dump c0"]; same.append((u, v))
+        progs.append(Program(f"law-idempotent-{fl}", ops, tags={"laws": same, "law": "idempotent", "both_binaries": True,
+                                                                "nopanic": list(range(len(ops))), "variety": ("laws", "idempotent", fl)}))
+    return [p for p in progs if p.tags["law"] in kinds]
+
+
+import re as _re
+_NOW_RE = _re.compile(r"\s*@now=\d+")
+
+
+def mon_laws(rr):
+    out = []
+    t = rr.prog.tags
+    if len(rr.impl) < len(rr.prog.ops):
+        return out
+    for a, b in t["laws"]:
+        x, y = _NOW_RE.sub("", norm(rr.impl[a])).strip(), _NOW_RE.sub("", norm(rr.impl[b])).strip()
+        if t["law"] != "idempotent":
+            y = y.replace("c1/", "c0/")
+        if x != y:
+            out.append(Failure("law_" + t["law"], b,
+                               f"`{rr.prog.ops[a][:60]}` -> {x[:120]}   BUT   `{rr.prog.ops[b][:60]}` -> {y[:120]}  "
+                               f"(law of Lemmas/SpecLaws: the two must agree)",
+                               sig={"law": t["law"], "op": rr.prog.ops[b].split(" ")[0], "prog": rr.prog.name}))
+    if "lawdump" in t:
+        a, b = t["lawdump"]
+        fa, la, da = parse_dump(rr.impl[a]); fb, lb, db = parse_dump(rr.impl[b])
+        pa = sorted(set(fa) | set(la) | da)
+        pb = sorted(x.replace("c1", "c0", 1) for x in set(fb) | set(lb) | db)
+        if pa != pb:
+            diff = sorted(set(pa) ^ set(pb))
+            out.append(Failure("law_reads_mutated", a, f"the history WITH reads and listings left other files / directories than the same history "
+                               f"without them: {diff[:4]}", sig={"law": "reads", "op": "dump"}))
+    for i, line in enumerate(rr.impl):
+        if norm(line).startswith(("panic", "hang")):
+            out.append(Failure("law_panic", i, f"`{rr.prog.ops[i][:80]}` -> {norm(line)}", sig={"law": t["law"], "op": rr.prog.ops[i].split(" ")[0]}))
+    return out
